@@ -18,7 +18,12 @@ prop(
         "(b) every pair of cuts with a notify in the first, second or both gaps (streams up to 20 bytes in quick, 44 in thorough); "
         "(c) byte-by-byte delivery with a notify at every / one / every k-th position, settled or in the same tick; "
         "(e) output capacity limited to k bytes (every k up to the response length in thorough) with notifications fired while the server "
-        "is blocked writing and the client draining 1 / 7 / 20 bytes at a time; (f) seeded random schedules mixing all of these "
+        "is blocked writing and the client draining 1 / 7 / 20 bytes at a time; (g) the same kinds of schedule on a socket that delivers to "
+        "the client only what the server has flushed (like a buffered writer or a TLS stream): whenever the connection is found parked on "
+        "its read side, nothing written may be left unflushed, and the delivered output must equal the reference; "
+        "for streams of well-formed queries only there is also a lower bound on Serial Notify PDUs: every notification fired right after "
+        "a quiescent point at a connection parked between queries or inside a header (sender alive) must produce its own Serial Notify, "
+        "also after a burst the one-slot channel could not hold; (f) seeded random schedules mixing all of these "
         "(20 k in quick, 1.6 M in thorough). Miri runs 32 (quick) / 136 (thorough) single-cut, same-tick, back-pressure and random schedules "
         "over three streams, ASan the enumerated classes for 66 streams plus 40 k random schedules. "
         "A case is non-trivial when it has a notification, more than one chunk or limited output capacity. distinct_nontrivial counts classes "
@@ -32,7 +37,8 @@ prop(
         "the payload source holds constant data during a run, so a notification can never legitimately change a response",
         "server positions (header n of 8, payload n of 4) are derived from bytes consumed from the socket and the documented framing (8-byte header, 4-byte Serial Query payload); they name evidence classes and violations, the verdict itself only compares output bytes",
         "after the first Error PDU the model oracle demands nothing further of the reference (closing or resynchronising are both accepted); the differential oracle still requires every schedule to do the same as the reference",
-        "the scripted socket hands over all buffered bytes a read asks for and accepts partial writes up to its capacity; other socket behaviours (errors, spurious wake-ups) are not generated",
+        "the scripted socket hands over all buffered bytes a read asks for and accepts partial writes up to its capacity, and in buffering mode delivers on poll_flush only; other socket behaviours (errors, spurious wake-ups) are not generated",
+        "a Serial Notify is owed only where the statement makes it unambiguous: notification fired alone after a quiescent point, connection parked reading a header, only well-formed queries in the stream; coalescing of bursts and notifications during a response are only bounded from above",
     ],
     level_text=(
         "Differential runtime monitor over enumerated and random arrival schedules of the real server: all single cuts and (for streams up to "
